@@ -345,4 +345,319 @@ theorem readUnifiedChunks_chunks (cs : List (Chunk Line)) (hok : ∀ c ∈ cs, R
       (by simp only [List.length_cons, List.length_append] at hf; omega)]
     simp [regroupChunk]
 
+/-! ## no written line contains a newline -/
+
+theorem noNl_hunkLine (ls le rs re : Nat) : NoNl (hunkLine ls le rs re) := by
+  unfold hunkLine
+  exact noNl_append (noNl_append (noNl_append (noNl_append (by unfold NoNl; decide)
+    (uspan_noNl '-' (by decide) _ _)) (by unfold NoNl; decide)) (uspan_noNl '+' (by decide) _ _))
+    (by unfold NoNl; decide)
+
+theorem noNl_unifiedEdit (e : Edit Line) (h : (∀ l ∈ e.X, NoNl l) ∧ (∀ l ∈ e.Y, NoNl l)) :
+    ∀ l ∈ unifiedEdit e, NoNl l := by
+  have hd : NoNl (str MdiffFmt.uniDrop) := by unfold NoNl; decide
+  have he : NoNl (str MdiffFmt.uniEmit) := by unfold NoNl; decide
+  have hc : NoNl (str MdiffFmt.uniCopy) := by unfold NoNl; decide
+  intro l hl
+  unfold unifiedEdit at hl
+  split at hl
+  · exact noNl_writeLines _ _ hd h.1 l hl
+  · exact noNl_writeLines _ _ he h.1 l hl
+  · exact noNl_writeLines _ _ hc h.2 l hl
+  · rcases List.mem_append.mp hl with hl | hl
+    · exact noNl_writeLines _ _ hd h.1 l hl
+    · exact noNl_writeLines _ _ hc h.2 l hl
+
+theorem noNl_chunks (cs : List (Chunk Line)) (h : ∀ c ∈ cs, EditsNoNl c.edits) :
+    ∀ l ∈ cs.flatMap unifiedChunk, NoNl l := by
+  intro l hl
+  simp only [List.mem_flatMap] at hl
+  obtain ⟨c, hc, hl⟩ := hl
+  rw [unifiedChunk_eq, List.mem_cons] at hl
+  rcases hl with rfl | hl
+  · exact noNl_hunkLine _ _ _ _
+  · simp only [List.mem_flatMap] at hl
+    obtain ⟨e, he, hl⟩ := hl
+    exact noNl_unifiedEdit e (h c hc e he) l hl
+
+/-! ## the file header -/
+
+/-- the `FileInfo` that comes back: empty names are written (and read) as `a` / `b` -/
+def normFi (f : FileInfo) : FileInfo :=
+  ⟨orDefault f.left ['a'], orDefault f.right ['b'], f.leftTime, f.rightTime⟩
+
+/-- a file name that survives: no newline, no tab (`parseFileLine` cuts at the first tab) -/
+def NameOK (n : Line) : Prop := '\n' ∉ n ∧ '\t' ∉ n
+
+/-- a (formatted) timestamp that survives: no newline, and `time.Parse(TimeFormat, ·)` returns it
+(the opaque assumption `Parse ∘ Format = id`; times are carried in formatted form) -/
+def TimeOK (pt : Line → Option Line) (t : Option Line) : Prop :=
+  ∀ s, t = some s → NoNl s ∧ pt s = some s
+
+def HeaderOK (pt : Line → Option Line) (f : FileInfo) : Prop :=
+  NameOK (orDefault f.left ['a']) ∧ NameOK (orDefault f.right ['b']) ∧
+  TimeOK pt f.leftTime ∧ TimeOK pt f.rightTime
+
+theorem parseFileLine_none (pt : Line → Option Line) (n : Line) (hn : '\t' ∉ n) :
+    parseFileLine pt n = (n, none) := by
+  simp only [parseFileLine, cut_none '\t' n hn]
+
+theorem parseFileLine_some (pt : Line → Option Line) (n s : Line) (hn : '\t' ∉ n) (hs : pt s = some s) :
+    parseFileLine pt (n ++ '\t' :: s) = (n, some s) := by
+  simp only [parseFileLine, cut_append '\t' n s hn, hs]
+
+theorem readUnifiedHeader_some (pt : Line → Option Line) (nl nr : Line) (tl tr : Option Line)
+    (rest : List Line) (hl : '\t' ∉ nl) (hr : '\t' ∉ nr) (htl : TimeOK pt tl) (htr : TimeOK pt tr) :
+    readUnifiedHeader pt
+      (fmtFileHeader (str "--- ") nl tl :: fmtFileHeader (str "+++ ") nr tr :: rest)
+      = some (some ⟨nl, nr, tl, tr⟩, rest) := by
+  rw [readUnifiedHeader]
+  cases tl with
+  | none =>
+    cases tr with
+    | none =>
+      simp only [fmtFileHeader, List.append_nil, cutPrefix_append,
+        parseFileLine_none pt _ hl, parseFileLine_none pt _ hr]
+    | some b =>
+      simp only [fmtFileHeader, List.append_assoc, List.append_nil, cutPrefix_append,
+        parseFileLine_none pt _ hl, parseFileLine_some pt _ _ hr (htr b rfl).2]
+  | some a =>
+    cases tr with
+    | none =>
+      simp only [fmtFileHeader, List.append_assoc, List.append_nil, cutPrefix_append,
+        parseFileLine_some pt _ _ hl (htl a rfl).2, parseFileLine_none pt _ hr]
+    | some b =>
+      simp only [fmtFileHeader, List.append_assoc, cutPrefix_append,
+        parseFileLine_some pt _ _ hl (htl a rfl).2, parseFileLine_some pt _ _ hr (htr b rfl).2]
+
+theorem readUnifiedHeader_hunk (pt : Line → Option Line) (t : Line) (rest : List Line) :
+    readUnifiedHeader pt (('@' :: t) :: rest) = some (none, ('@' :: t) :: rest) := by
+  have e : str "--- " = ['-', '-', '-', ' '] := rfl
+  rw [readUnifiedHeader, e, cutPrefix_ne _ _ _ _ (by decide)]
+
+theorem noNl_fmtFileHeader (pfx n : Line) (t : Option Line) (hp : NoNl pfx) (hn : NoNl n)
+    (ht : ∀ s, t = some s → NoNl s) : NoNl (fmtFileHeader pfx n t) := by
+  unfold fmtFileHeader
+  refine noNl_append (noNl_append hp hn) ?_
+  cases t with
+  | none => unfold NoNl; simp
+  | some s =>
+    intro h
+    rcases List.mem_cons.mp h with h | h
+    · exact absurd h (by decide)
+    · exact ht s rfl h
+
+/-! ## re-formatting the parsed patch -/
+
+theorem unifiedChunk_regroup (c : Chunk Line) : unifiedChunk (regroupChunk c) = unifiedChunk c := by
+  simp only [unifiedChunk_eq, regroupChunk, flatMap_unifiedEdit_regroup]
+
+theorem flatMap_unifiedChunk_regroup (cs : List (Chunk Line)) :
+    (cs.map regroupChunk).flatMap unifiedChunk = cs.flatMap unifiedChunk := by
+  induction cs with
+  | nil => rfl
+  | cons c cs ih => rw [List.map_cons, List.flatMap_cons, List.flatMap_cons, ih, unifiedChunk_regroup]
+
+theorem orDefault_idem (n d : Line) (hd : d ≠ []) : orDefault (orDefault n d) d = orDefault n d := by
+  unfold orDefault
+  by_cases h : n = []
+  · simp [h, hd]
+  · simp [h]
+
+theorem unified_regroup (cs : List (Chunk Line)) (fi : Option FileInfo) :
+    unified (cs.map regroupChunk) (fi.map normFi) = unified cs fi := by
+  unfold unified
+  rw [List.length_map, flatMap_unifiedChunk_regroup]
+  cases fi with
+  | none => rfl
+  | some f =>
+    simp only [Option.map, normFi, orDefault_idem _ ['a'] (by simp), orDefault_idem _ ['b'] (by simp)]
+
+/-! ## `ReadUnified ∘ Unified` -/
+
+theorem readUnified_chunks (pt : Line → Option Line) (cs : List (Chunk Line)) (hcs : cs ≠ [])
+    (hok : ∀ c ∈ cs, RangesOK c) :
+    readUnified pt (cs.flatMap unifiedChunk) = some ⟨none, cs.map regroupChunk⟩ := by
+  have hh : readUnifiedHeader pt (cs.flatMap unifiedChunk) = some (none, cs.flatMap unifiedChunk) := by
+    rcases hunkStart_chunks cs with h | ⟨t, ls, h⟩
+    · cases cs with
+      | nil => exact absurd rfl hcs
+      | cons c cs => rw [List.flatMap_cons, unifiedChunk_eq] at h; simp at h
+    · rw [h]; exact readUnifiedHeader_hunk pt t ls
+  unfold readUnified
+  rw [hh]
+  simp only [readUnifiedChunks_chunks cs hok [] _ (Nat.le_refl _), Option.map, List.nil_append]
+
+theorem readUnified_header (pt : Line → Option Line) (cs : List (Chunk Line)) (f : FileInfo)
+    (hok : ∀ c ∈ cs, RangesOK c) (hf : HeaderOK pt f) :
+    readUnified pt
+      (fmtFileHeader (str "--- ") (orDefault f.left ['a']) f.leftTime ::
+       fmtFileHeader (str "+++ ") (orDefault f.right ['b']) f.rightTime :: cs.flatMap unifiedChunk)
+      = some ⟨some (normFi f), cs.map regroupChunk⟩ := by
+  obtain ⟨h1, h2, h3, h4⟩ := hf
+  unfold readUnified
+  rw [readUnifiedHeader_some pt _ _ _ _ _ h1.2 h2.2 h3 h4]
+  simp only [readUnifiedChunks_chunks cs hok [] _ (Nat.le_refl _), Option.map, List.nil_append, normFi]
+
+/-- all lines written by `Unified` are newline-free -/
+theorem noNl_unified (pt : Line → Option Line) (cs : List (Chunk Line)) (fi : Option FileInfo)
+    (hnl : ∀ c ∈ cs, EditsNoNl c.edits) (hfi : ∀ f, fi = some f → HeaderOK pt f) :
+    ∀ l ∈ unified cs fi, NoNl l := by
+  intro l hl
+  unfold unified at hl
+  split at hl
+  · simp at hl
+  · cases fi with
+    | none => exact noNl_chunks cs hnl l (by simpa using hl)
+    | some f =>
+      obtain ⟨h1, h2, h3, h4⟩ := hfi f rfl
+      simp only [List.cons_append, List.nil_append, List.mem_cons] at hl
+      rcases hl with rfl | rfl | hl
+      · exact noNl_fmtFileHeader _ _ _ (by unfold NoNl; decide) h1.1 (fun s hs => (h3 s hs).1)
+      · exact noNl_fmtFileHeader _ _ _ (by unfold NoNl; decide) h2.1 (fun s hs => (h4 s hs).1)
+      · exact noNl_chunks cs hnl l hl
+
+theorem readUnified_unified (pt : Line → Option Line) (cs : List (Chunk Line)) (fi : Option FileInfo)
+    (hcs : cs ≠ []) (hok : ∀ c ∈ cs, RangesOK c) (hfi : ∀ f, fi = some f → HeaderOK pt f) :
+    readUnified pt (unified cs fi) = some ⟨fi.map normFi, cs.map regroupChunk⟩ := by
+  have hlen : ¬ cs.length = 0 := by
+    cases cs with
+    | nil => exact absurd rfl hcs
+    | cons c cs => simp
+  unfold unified
+  rw [if_neg hlen]
+  cases fi with
+  | none => exact readUnified_chunks pt cs hcs hok
+  | some f => exact readUnified_header pt cs f hok (hfi f rfl)
+
+/-! ## when the same edits come back -/
+
+/-- the last edit of `acc` (if any) is not of class `op` -/
+def LastNe (acc : List (Edit Line)) (op : EditOp) : Prop := ∀ e, acc.getLast? = some e → e.op ≠ op
+
+theorem addLine_lastNe (acc : List (Edit Line)) (op : EditOp) (t : Line) (h : LastNe acc op) :
+    addLine acc op t = acc ++ [match op with
+      | .copy => (⟨op, [], [t]⟩ : Edit Line)
+      | _ => ⟨op, [t], []⟩] := by
+  rcases List.eq_nil_or_concat acc with rfl | ⟨init, e, rfl⟩
+  · rw [addLine_nil]; rfl
+  · rw [List.concat_eq_append] at h ⊢
+    exact addLine_concat_ne _ _ _ _ (h e List.getLast?_concat)
+
+theorem addLines_cons (acc : List (Edit Line)) (p : EditOp × Line) (ps : List (EditOp × Line)) :
+    addLines acc (p :: ps) = addLines (addLine acc p.1 p.2) ps := rfl
+
+theorem addLines_append (acc : List (Edit Line)) (a b : List (EditOp × Line)) :
+    addLines acc (a ++ b) = addLines (addLines acc a) b := by
+  simp [addLines, List.foldl_append]
+
+theorem addLines_runX (op : EditOp) (hop : op ≠ .copy) (init : List (Edit Line)) (X0 X Y0 : List Line) :
+    addLines (init ++ [⟨op, X0, Y0⟩]) (X.map fun x => (op, x)) = init ++ [⟨op, X0 ++ X, Y0⟩] := by
+  induction X generalizing X0 with
+  | nil => simp [addLines]
+  | cons x X ih =>
+    rw [List.map_cons, addLines_cons]
+    have := addLine_concat_same init ⟨op, X0, Y0⟩ x
+    simp only at this
+    rw [this]
+    cases op with
+    | copy => exact absurd rfl hop
+    | drop => rw [ih]; simp
+    | emit => rw [ih]; simp
+    | replace => rw [ih]; simp
+
+theorem addLines_runY (init : List (Edit Line)) (X0 Y0 Y : List Line) :
+    addLines (init ++ [⟨.copy, X0, Y0⟩]) (Y.map fun y => (EditOp.copy, y))
+      = init ++ [⟨.copy, X0, Y0 ++ Y⟩] := by
+  induction Y generalizing Y0 with
+  | nil => simp [addLines]
+  | cons y Y ih =>
+    rw [List.map_cons, addLines_cons]
+    have := addLine_concat_same init ⟨.copy, X0, Y0⟩ y
+    simp only at this
+    rw [this, ih]; simp
+
+/-- an edit as `New`/`AddContext`/`Unify` without Replace produce it: not empty, unused field empty -/
+def CanonEdit (e : Edit Line) : Prop :=
+  match e.op with
+  | .drop => e.X ≠ [] ∧ e.Y = []
+  | .emit => e.X ≠ [] ∧ e.Y = []
+  | .copy => e.Y ≠ [] ∧ e.X = []
+  | .replace => False
+
+/-- no two adjacent edits of the same class -/
+def NoAdj : List (Edit Line) → Prop
+  | a :: b :: r => a.op ≠ b.op ∧ NoAdj (b :: r)
+  | _ => True
+
+theorem addLines_edit (acc : List (Edit Line)) (e : Edit Line) (hc : CanonEdit e)
+    (hl : LastNe acc e.op) : addLines acc (flatEdit e) = acc ++ [e] := by
+  obtain ⟨op, X, Y⟩ := e
+  cases op with
+  | replace => exact absurd hc (by simp [CanonEdit])
+  | drop =>
+    obtain ⟨hX, rfl⟩ := hc
+    cases X with
+    | nil => exact absurd rfl hX
+    | cons x X =>
+      simp only [flatEdit, List.map_cons]
+      rw [addLines_cons, addLine_lastNe _ _ _ hl]
+      simp only
+      rw [addLines_runX _ (by decide)]; simp
+  | emit =>
+    obtain ⟨hX, rfl⟩ := hc
+    cases X with
+    | nil => exact absurd rfl hX
+    | cons x X =>
+      simp only [flatEdit, List.map_cons]
+      rw [addLines_cons, addLine_lastNe _ _ _ hl]
+      simp only
+      rw [addLines_runX _ (by decide)]; simp
+  | copy =>
+    obtain ⟨hY, rfl⟩ := hc
+    cases Y with
+    | nil => exact absurd rfl hY
+    | cons y Y =>
+      simp only [flatEdit, List.map_cons]
+      rw [addLines_cons, addLine_lastNe _ _ _ hl]
+      simp only
+      rw [addLines_runY]; simp
+
+theorem addLines_canon (es : List (Edit Line)) (hc : ∀ e ∈ es, CanonEdit e) (hadj : NoAdj es) :
+    ∀ acc : List (Edit Line), (∀ e, es.head? = some e → LastNe acc e.op) →
+      addLines acc (flat es) = acc ++ es := by
+  induction es with
+  | nil => intro acc _; simp [flat, addLines]
+  | cons e es ih =>
+    intro acc hl
+    rw [flat_cons, addLines_append, addLines_edit acc e (hc e (by simp)) (hl e rfl)]
+    have hadj' : NoAdj es := by
+      cases es with
+      | nil => trivial
+      | cons b r => exact hadj.2
+    rw [ih (fun e' he' => hc e' (by simp [he'])) hadj' (acc ++ [e])]
+    · simp
+    · intro b hb e' he'
+      rw [List.getLast?_concat] at he'
+      cases he'
+      cases es with
+      | nil => cases hb
+      | cons b' r => cases hb; exact hadj.1
+
+/-- **the same edits come back** when there is nothing to fuse or split -/
+theorem regroup_canonical (es : List (Edit Line)) (hc : ∀ e ∈ es, CanonEdit e) (hadj : NoAdj es) :
+    regroup es = es := by
+  rw [regroup, addLines_canon es hc hadj [] (fun e _ e' he' => by cases he')]; simp
+
+/-- a Replace comes back as its Drop half followed by its Copy half -/
+theorem regroup_replace (X Y : List Line) (hX : X ≠ []) (hY : Y ≠ []) :
+    regroup [⟨.replace, X, Y⟩] = [⟨.drop, X, []⟩, ⟨.copy, [], Y⟩] := by
+  have e : flat [(⟨.replace, X, Y⟩ : Edit Line)]
+      = flatEdit ⟨.drop, X, []⟩ ++ flatEdit ⟨.copy, [], Y⟩ := by simp [flat, flatEdit]
+  rw [regroup, e, addLines_append,
+    addLines_edit [] ⟨.drop, X, []⟩ ⟨hX, rfl⟩ (fun e' he' => by cases he'),
+    addLines_edit _ ⟨.copy, [], Y⟩ ⟨hY, rfl⟩ (fun e' he' => by
+      rw [List.nil_append, List.getLast?_singleton] at he'; cases he'; simp)]
+  rfl
+
 end MdsVerif.Proofs.MdiffUnified
